@@ -27,7 +27,7 @@ def main(tier, replay=None):
                 l = l.strip()
                 if l.startswith("case: "):
                     l = l[6:]
-                if l[:2] in ("N ", "M ", "A ", "X ", "P ", "C ", "Q ", "Z "):
+                if l[:2] in ("N ", "M ", "A ", "X ", "P ", "C ", "Q ", "Z ", "V "):
                     f.write(l + "\n")
     else:
         subprocess.run([hbin, "gen", c.tier, str(c.seed), rd], check=True)
@@ -134,7 +134,7 @@ def main(tier, replay=None):
 
     kinds, nt = {}, set()
     retrans_groups = 0
-    wire_inversions = sum(1 for k, l in impl.items() if k[0] in "PCQZ" and fields(l).get("increasing") == "0")
+    wire_inversions = sum(1 for k, l in impl.items() if k[0] in "PCQZV" and fields(l).get("increasing") == "0")
     for key, cl in case_by_key.items():
         kinds[cl[0]] = kinds.get(cl[0], 0) + 1
         ml, il = model.get(key, ""), impl.get(key, "")
@@ -142,7 +142,7 @@ def main(tier, replay=None):
             nt.add(cl.split(" ", 2)[2])
         elif cl[0] in "AX" and len(cl.split(" ")) > 3 and cl.split(" ")[3]:
             nt.add(cl.split(" ", 2)[2])
-        elif cl[0] in "PCQZ":
+        elif cl[0] in "PCQZV":
             r = int(fields(il).get("retrans", "0") or 0)
             retrans_groups += r
             if r > 0:
